@@ -8,6 +8,12 @@ Tie: the REAL socketio.AsyncServer under the gate scheduler of drivers/sched_srv
 is replayed against the asyncio-granularity model of coq/Conc/ServerConc.v inside Coq (bit 1)
 and judged by the checker of coq/Check/C20Check.v on the implementation's own trace (bit 2).
 
+Connect in progress (run_connect_part, notes/C04.md): the same causes beside a CONNECT for another
+namespace of the same transport whose coroutine connect handler is suspended (accepting or
+refusing, always_connect off / on); driver drivers/sched_conn.py, model coq/Conc/ConnConc.v,
+checker coq/Check/C04ConnCheck.v (established sessions: C20Check's clauses unchanged; the new
+session, the connect handler count and the answer to the client in addition).
+
 Not registered in the manifest on its own: `run_async_part(chk)` is meant to be called from
 props/c04.py after its own `chk.prove()`; `run(chk)` is the stand-alone entry used by
 `check.py C04ASYNC`."""
@@ -18,6 +24,7 @@ from vt import common, coqio
 from drivers import sched_srv as S
 from props import c20
 from props.c20 import scenario, LONE, FULL
+from vt.coqio import clist, cbool
 
 PROPS_FILE = 'C04Async'
 
@@ -83,6 +90,279 @@ def run_async_part(chk):
     prove_async(chk)
     defs, cases, meta = c20.collect(chk, 'asyncio', 'GAsync', plan(chk.thorough), WITNESSES)
     c20.judge(chk, 'c04async', defs, cases, meta, 'c04async-correspondence')
+    run_connect_part(chk)
+
+
+
+# ---------------------------------------------------------------------------------------
+# CONNECT IN PROGRESS beside the terminating causes (model coq/Conc/ConnConc.v, checker
+# coq/Check/C04ConnCheck.v, driver drivers/sched_conn.py)
+# ---------------------------------------------------------------------------------------
+X_IMPORTS = 'From VT Require Import Check.C04ConnCheck.'
+X_CLAUSES = c20.CLAUSES + [
+    (1024, 'connect-handler-count', 'the connect handler did not run exactly once for an admitted CONNECT (or ran for a '
+                                    'duplicate one)'),
+    (2048, 'connect-answer', 'every task has finished and the client was not answered exactly once (CONNECT with the '
+                             'session id / CONNECT_ERROR / CONNECT + DISCONNECT with always_connect)'),
+]
+# FULL plus a second transport on the namespace that is being connected to (the namespace table survives)
+FULLC = FULL + [('connect', 'e1', '/c')]
+X_CAUSE = dict(c20.CAUSE)
+
+
+def x_scenario(setup, names, conns, always_connect=False, raising=()):
+    """conns: [(eio, ns, 'accept' | 'false')]; the terminating causes 'ccli' / 'capi' are aimed at the session
+    the first connect creates."""
+    n0 = sum(1 for op in setup if op[0] == 'connect')
+    cause = dict(X_CAUSE)
+    if conns:
+        cause['ccli'] = ('client', conns[0][0], conns[0][1])
+        cause['capi'] = ('api', 'S%d' % n0, conns[0][1])
+    return {'setup': [list(x) for x in setup], 'raising': list(raising), 'always_connect': bool(always_connect),
+            'causes': [list(cause[n]) for n in names] + [['connect'] + list(c) for c in conns]}
+
+
+def x_split(sc):
+    n0 = sum(1 for op in sc['setup'] if op[0] == 'connect')
+    term = [c for c in sc['causes'] if c[0] != 'connect']
+    conns = [c for c in sc['causes'] if c[0] == 'connect']
+    if sc['causes'][:len(term)] != term:
+        raise ValueError('connect causes must come last: %r' % (sc['causes'],))
+    return term, [(c[1], c[2], 'S%d' % (n0 + i), c[3]) for i, c in enumerate(conns)]
+
+
+def xlbl_term(l):
+    try:
+        if l[0] == 'Connect':
+            return '(XConnect %s %s %s)' % (c20._s(l[1]), c20._s(l[2]), c20._os(l[3]))
+        if l[0] == 'EnvGet':
+            return '(XEnvGet %s %s)' % (c20._s(l[1]), cbool(bool(l[2])))
+        if l[0] == 'CHandler':
+            return '(XCHandler %s %s)' % (c20._s(l[1]), c20._s(l[2]))
+    except (c20.Unprintable, IndexError, TypeError):
+        return '(XL (LOther 9))'
+    return '(XL %s)' % c20.lbl_term(l)
+
+
+class XDefs(c20.Defs):
+    def name(self, sc):
+        key = repr(sc)
+        if key not in self.names:
+            k = len(self.names)
+            term, conns = x_split(sc)
+            self.lines.append('Definition su_%d := %s.' % (k, c20.setup_terms(sc['setup'])))
+            self.lines.append('Definition rs_%d : list str := %s.' % (k, clist([c20.q(x) for x in sc['raising']])))
+            self.lines.append('Definition cs_%d := %s.' % (k, clist([c20.cause_term(c) for c in term])))
+            self.lines.append('Definition ks_%d := %s.' % (k, clist([
+                'mkConn %s %s %s %s' % (c20.q(e), c20.q(ns), c20.q(sid), cbool(out == 'accept'))
+                for e, ns, sid, out in conns])))
+            self.names[key] = ('su_%d' % k, 'rs_%d' % k, 'cs_%d' % k, 'ks_%d' % k)
+        return self.names[key]
+
+
+def xcase_term(sc, names, r):
+    return '(XCase %s %s %s %s %s %s %s %s %s)' % (
+        names[0], cbool(bool(sc.get('always_connect'))), names[1], names[2], names[3],
+        clist([str(c) for c in r.schedule]),
+        clist([clist([xlbl_term(l) for l in step]) for step in r.trace]),
+        c20.dump_term(r.final), cbool(r.alldone))
+
+
+def x_plan(thorough):
+    """(name, scenario, how): every interleaving AFTER the prefix that brings the connect to its suspended handler
+    ('all'), or those with a bounded number of pre-emptions plus random walks."""
+    out = []
+    conn = ('e0', '/c')
+    pool = ['api', 'cli', 'loss', 'ocli', 'oapi', 'ccli', 'capi']
+    all_pairs = [c for c in itertools.combinations_with_replacement(pool, 2) if c.count('loss') <= 1]
+
+    def removes_new(names):         # causes that end the session the CONNECT creates
+        return any(n in ('loss', 'ccli', 'capi') for n in names)
+    for ac in (False, True):
+        for outc in ('accept', 'false'):
+            tag = '%s%s' % (outc, '+always_connect' if ac else '')
+            combos = [((n,), 'all') for n in pool]
+            if thorough:
+                combos += [(c, 'all') for c in all_pairs]
+            elif not ac:
+                combos += [(c, 'all') for c in (('api', 'cli'), ('cli', 'loss'), ('cli', 'ccli'), ('loss', 'ccli'))]
+                combos += [(c, ('bounded', 1, 12)) for c in (('api', 'loss'), ('loss', 'ocli'), ('loss', 'capi'),
+                                                             ('api', 'capi'), ('loss', 'oapi'), ('cli', 'oapi'))]
+            else:
+                combos += [(('cli', 'loss'), 'all'), (('api', 'loss'), ('bounded', 1, 12)),
+                           (('loss', 'ccli'), ('bounded', 1, 12))]
+            for names, how in combos:
+                out.append(('conn %s full %s' % (tag, '+'.join(names)),
+                            x_scenario(FULL, names, [conn + (outc,)], ac), how))
+                if ac and outc == 'false' and removes_new(names) and (thorough or len(names) == 1):
+                    # somebody else keeps the namespace table alive: the refusal's pre_disconnect does not raise
+                    out.append(('conn %s fullc %s' % (tag, '+'.join(names)),
+                                x_scenario(FULLC, names, [conn + (outc,)], ac), how))
+            for names in (('cli',), ('loss',), ('cli', 'loss')) + ((('api', 'loss'), ('api', 'cli')) if thorough else ()):
+                out.append(('conn %s lone %s' % (tag, '+'.join(names)),
+                            x_scenario(LONE, names, [conn + (outc,)], ac), 'all'))
+    # a repeated CONNECT for a namespace the transport is on already (refused without a handler), a raising
+    # disconnect handler, and two requests in progress at once
+    out.append(('conn duplicate full cli+loss', x_scenario(FULL, ('cli', 'loss'), [('e0', '/b', 'accept')]), 'all'))
+    out.append(('conn accept full cli+loss raising',
+                x_scenario(FULL, ('cli', 'loss'), [conn + ('accept',)], raising=['S0', 'S3']),
+                'all' if thorough else ('bounded', 1, 12)))
+    out.append(('conn accept+false full loss', x_scenario(FULL, ('loss',), [conn + ('accept',), ('e0', '/d', 'false')]),
+                'all' if thorough else ('bounded', 1, 12)))
+    out.append(('conn accept(e0)+accept(e1) full api+loss',
+                x_scenario(FULL, ('api', 'loss'), [conn + ('accept',), ('e1', '/c', 'accept')]),
+                ('bounded', 2, 100) if thorough else ('bounded', 1, 12)))
+    if thorough:
+        for outc in ('accept', 'false'):
+            for names in itertools.combinations_with_replacement(['api', 'cli', 'loss', 'ocli', 'capi'], 3):
+                if names.count('loss') <= 1 and len(set(names)) >= 2:
+                    out.append(('conn %s full %s' % (outc, '+'.join(names)),
+                                x_scenario(FULL, names, [conn + (outc,)]), ('bounded', 2, 60)))
+    return out
+
+
+def _x_explore_one(task):
+    name, sc, how, seed, cap = task
+    from drivers import sched_conn as X
+    rng = common.Rng(seed).sub('C04conn/%s' % name)
+    prefix = X.prefix_of(sc)
+    out = []
+
+    def add(r, kind):
+        out.append({'kind': kind, 'schedule': list(r.schedule), 'trace': r.trace, 'final': r.final,
+                    'alldone': r.alldone, 'error': r.error, 'sw': c20.switches_in_flight(r)})
+    if how == 'all':
+        for r in X.explore_from(sc, prefix, limit=cap):
+            add(r, 'exhaustive after the connect prefix')
+    else:
+        _, k, walks = how
+        for r in X.explore_from(sc, prefix, limit=cap, max_preempt=k + len(prefix)):
+            add(r, 'preemptions<=%d after the connect prefix' % k)
+        for _ in range(walks):
+            add(X.random_walk_from(sc, prefix, rng), 'random walk after the connect prefix')
+    for _ in range(2):
+        add(X.random_walk_from(sc, prefix, rng, noop_rate=0.25), 'walk with no-ops after the connect prefix')
+    X.close_loop()
+    return out
+
+
+def x_signature(code, sc):
+    """Structural class of a violating run with a connect in progress."""
+    names = [name for bit, name, _ in X_CLAUSES if code & bit]
+    return '+'.join(names) + ('-in-double-check-window' if code & 256 else '') + '-with-connect-in-progress@asyncio'
+
+
+def x_what(code):
+    return '; '.join(text for bit, _, text in X_CLAUSES if code & bit) + \
+        ('; pre_disconnect raised KeyError' if code & 512 else '')
+
+
+def x_collect(chk, the_plan):
+    import multiprocessing
+    defs = XDefs()
+    cases, meta = [], []
+    n_err = 0
+    cap = 200000 if chk.thorough else 6000
+    tasks = [(name, sc, how, chk.rng.seed_value, cap) for name, sc, how in the_plan]
+    ctx = multiprocessing.get_context('fork')
+    with ctx.Pool(min(common.NCPU, max(1, len(tasks)))) as pool:
+        results = pool.map(_x_explore_one, tasks, chunksize=1)
+    for (name, sc, how), recs in zip(the_plan, results):
+        for rec in recs:
+            r = c20.Lite(rec)
+            cases.append(xcase_term(sc, defs.name(sc), r))
+            meta.append({'mode': 'asyncio-connect', 'scenario': name, 'sc': sc, 'schedule': r.schedule, 'kind': r.kind,
+                         'order': len(defs.names), 'error': r.error})
+            sample = None
+            if r.sw and len(chk.samples) < 8 and len(meta) % 197 == 0:
+                sample = {'mode': 'asyncio-connect', 'scenario': name, 'schedule': r.schedule,
+                          'trace': [[' '.join(map(str, l)) for l in st] for st in r.trace][:16]}
+            chk.count(1, ('asyncio-connect', name, tuple(r.schedule)) if r.sw else None, sample)
+            chk.dist('asyncio connect-in-progress %s' % r.kind)
+            if r.error:
+                n_err += 1
+                if n_err <= 3:
+                    chk.broken_obligation('driver error on connect-in-progress %r %s: %s' % (name, r.schedule, r.error))
+    if n_err:
+        chk.broken_obligation('%d connect-in-progress runs ended in a driver error' % n_err)
+    return defs, cases, meta
+
+
+def x_judge(chk, defs, cases, meta):
+    codes, errors = coqio.eval_cases('c04conn', X_IMPORTS, defs.text(), 'xcase', cases, 'c04conn_eval', shard=700)
+    chk.traces_validated += len(cases)
+    for e in errors:
+        chk.broken_obligation('case evaluation failed: ' + e)
+    n_disagree = sum(1 for c in codes.values() if c & 1)
+    if n_disagree:
+        chk.broken_obligation('correspondence: model coq/Conc/ConnConc.v and implementation disagree on %d of %d '
+                              'connect-in-progress runs' % (n_disagree, len(cases)))
+    best, count, shown = {}, {}, 0
+    for idx, code in sorted(codes.items()):
+        m = meta[idx]
+        if code & 1 and shown < 4:
+            shown += 1
+            chk.broken_obligation('correspondence: model and asyncio server disagree on scenario %r schedule %s' % (
+                m['scenario'], m['schedule']))
+        if code & 2:
+            sig = x_signature(code, m['sc'])
+            count[sig] = count.get(sig, 0) + 1
+            cur = best.get(sig)
+            if cur is None or c20._size(m) < c20._size(meta[cur[0]]):
+                best[sig] = (idx, code)
+    if n_disagree and not any(c & 2 for c in codes.values()):
+        m = meta[min(i for i, c in codes.items() if c & 1)]
+        chk.violation('c04conn-correspondence', 'model coq/Conc/ConnConc.v and the real asyncio server disagree',
+                      c20._replay_of(m, None), no_input=True)
+    for sig, (idx, code) in sorted(best.items()):
+        m = meta[idx]
+        chk.violation(sig, '%s (minimal schedule found: asyncio, always_connect=%s, causes %s, schedule %s; %d violating '
+                           'runs of this class)' % (x_what(code), bool(m['sc'].get('always_connect')), m['sc']['causes'],
+                                                    m['schedule'], count[sig]), c20._replay_of(m, None))
+    chk.extra.setdefault('violating_runs_by_signature', {}).update(count)
+    return codes
+
+
+def run_connect_part(chk):
+    """Terminating causes against a CONNECT whose coroutine handler is suspended (same transport, other namespace)."""
+    chk.assumptions = list(chk.assumptions) + [
+        'asyncio part, connect in progress: the CONNECT has been registered (manager.connect) and its coroutine connect '
+        'handler is suspended before any terminating cause starts (fixed schedule prefix); everything after that is '
+        'interleaved freely; `await manager.connect()` does not suspend (checked on every run)']
+    ok, out = coqio.build(['Check/C04ConnCheck.v'])
+    chk.checker_cmds.append('make -C coq -j%d Check/C04ConnCheck.vo' % common.NCPU)
+    if not ok:
+        chk.broken_obligation('coq build failed in %s: %s' % (coqio.failed_files(out) or '?', out[-1200:]))
+        return
+    defs, cases, meta = x_collect(chk, x_plan(chk.thorough))
+    x_judge(chk, defs, cases, meta)
+
+
+def x_replay(rp, tag):
+    from drivers import sched_conn as X
+    sc = rp['sc']
+    r = X.run_conn(sc, rp['schedule'])
+    X.close_loop()
+    print('mode=asyncio-connect always_connect=%s causes=%s raising=%s' % (
+        bool(sc.get('always_connect')), sc['causes'], sc['raising']))
+    print('  initial: %s' % r.initial)
+    for ch, labels in zip(r.schedule, r.trace):
+        print('  task %d: %s' % (ch, labels))
+    print('  final: %s alldone=%s error=%s' % (r.final, r.alldone, r.error))
+    defs = XDefs()
+    case = xcase_term(sc, defs.name(sc), r)
+    rc, out = coqio.eval_print(tag, X_IMPORTS, defs.text(), ['c04conn_eval %s' % case, 'c04conn_explain %s' % case])
+    print(out)
+    first = out.split('\n')[0] if out else ''
+    try:
+        code = int(first.split('=')[1].split(':')[0].strip().rstrip('%nat'))
+    except (IndexError, ValueError):
+        code = -1
+    if code > 0 and code & 2:
+        print('signature: %s - %s' % (x_signature(code, sc), x_what(code)))
+    if code > 0 and code & 1:
+        print('model and implementation disagree on this schedule')
+    return 0 if code == 0 else 1
 
 
 def run(chk):
@@ -103,4 +383,6 @@ def replay(chk, data):
     if 'schedule' not in rp:
         print('nothing to replay: %s' % rp)
         return 1
+    if rp.get('mode') == 'asyncio-connect':
+        return x_replay(rp, 'c04conn_replay')
     return c20.replay_run(rp, 'c04async_replay')
